@@ -24,6 +24,15 @@
 (*   otherkey                              (signature by another key)        *)
 (*   forge-ct-1 forge-ct=0 forge-badpad    (CBC-HMAC: tag recomputed by the  *)
 (*                                          key holder over a malformed ct)  *)
+(*   pad                                   (padded-CBC decryption / UnpadPKCS7 *)
+(*        of a hand-built plaintext of inLen bytes whose last byte is padV,  *)
+(*        extra fields padV, padTail: full = the last padV bytes are padV,   *)
+(*        lastonly = only the last byte, broken = the tail but for its first *)
+(*        byte; the CBC ciphertext is made WITHOUT padding by the reference) *)
+(* A case may carry seq (in {"rsa","ec","okp"}): the call is made with a key *)
+(* that has a key id, once on its own and once after unrelated calls with a  *)
+(* DIFFERENT key of kind seq carrying the SAME key id.  Allowed does not     *)
+(* depend on seq: the outcome is a function of the arguments alone.          *)
 (* Outcome classes: ok | keytype nonce tag ptlen ctlen unsupported (the six  *)
 (* sentinels) | error (any other error) | invalid (verify: false, nil) |     *)
 (* panic (never admissible).                                                 *)
@@ -104,11 +113,12 @@ GenericFns == {"Encrypt", "Decrypt"}
 SigFns == {"SignPrivateKey", "VerifyPublicKey"}
 KwFns == {"aeskw.Wrap", "aeskw.Unwrap"}
 AeadFns == {"aescbcaead.Seal", "aescbcaead.Open"}
-DirectFns == KwFns \cup AeadFns        \* packages that define no sentinel errors
+PadFns == {"padding.UnpadPKCS7"}
+DirectFns == KwFns \cup AeadFns \cup PadFns        \* packages that define no sentinel errors
 Fns == SymFns \cup AsymFns \cup GenericFns \cup SigFns \cup DirectFns
 
 Dir(fn) == CASE fn \in {"Encrypt", "EncryptSymmetric", "EncryptPublicKey", "aeskw.Wrap", "aescbcaead.Seal"} -> "enc"
-             [] fn \in {"Decrypt", "DecryptSymmetric", "DecryptPrivateKey", "aeskw.Unwrap", "aescbcaead.Open"} -> "dec"
+             [] fn \in {"Decrypt", "DecryptSymmetric", "DecryptPrivateKey", "aeskw.Unwrap", "aescbcaead.Open", "padding.UnpadPKCS7"} -> "dec"
              [] fn = "SignPrivateKey" -> "sign"
              [] fn = "VerifyPublicKey" -> "verify"
 
@@ -119,6 +129,7 @@ SupportedFor(fn) ==
     [] fn \in SigFns -> SigNames
     [] fn \in KwFns -> KwNames
     [] fn \in AeadFns -> AeadNames
+    [] fn \in PadFns -> {""}
 
 HasNonceParam(fn) == fn \in SymFns \cup GenericFns \cup AeadFns
 HasTagParam(fn) == fn \in {"Decrypt", "DecryptSymmetric"}
@@ -209,8 +220,15 @@ Soft(cs, r) ==
   \cup (IF d = "enc" /\ r.fam = "kw" /\ cs.inLen \in {0, 8} THEN {"ptlen", "error"} ELSE {})   \* RFC 3394 wants n >= 2
   \cup (IF d \in {"dec", "verify"} THEN MutSoft(cs, r) ELSE {})
 
+(* PKCS#7 (RFC 5652 6.3) for a 16-byte block: the last byte v says how many  *)
+(* padding bytes there are; valid iff 1 <= v <= 16 and the last v bytes are  *)
+(* all v.                                                                    *)
+PadValid(cs) == cs.padV >= 1 /\ cs.padV <= 16 /\ (cs.padTail = "full" \/ (cs.padTail = "lastonly" /\ cs.padV = 1))
+IsSeq(cs) == "seq" \in DOMAIN cs
+
 Allowed(cs) ==
-  IF cs.alg \notin SupportedFor(cs.fn)
+  IF cs.mut = "pad" THEN (IF PadValid(cs) THEN {"ok"} ELSE {"error"})
+  ELSE IF cs.alg \notin SupportedFor(cs.fn)
   THEN {"unsupported"}
        \cup (IF cs.fn \in SymFns \cup GenericFns /\ Base(cs.keyKind) # "oct" THEN {"keytype"} ELSE {})
        \cup (IF cs.fn \in AsymFns \cup SigFns \cup GenericFns /\ Base(cs.keyKind) = "oct" THEN {"keytype"} ELSE {})
@@ -324,6 +342,42 @@ AeadGroup(r, fn) ==
     \cup (IF open THEN {cs \in {C(fn, r.alg, "oct", kb, 16, r.tag, il, al, m) : il \in MutLens, al \in {0, 20}, m \in SymMuts(r)} : MutApplies(cs, r)}
           ELSE {})
 
+(* Malformed / well-formed PKCS#7 tails on messages of 1..4 blocks, through  *)
+(* padding.UnpadPKCS7 and through every padded-CBC decryption.               *)
+PadVsAll == 0..255
+PadVs == IF Small THEN (0..18) \cup {31, 32, 33, 34, 47, 48, 49, 63, 64, 65, 255} ELSE PadVsAll
+PadLens == {16, 32, 48, 64}
+PadRows == {q \in SymRows : q.fam \in {"cbc", "cbchmac"}}
+PadTailsFor(v, L) == (IF v >= 1 /\ v <= L THEN {"full"} ELSE {}) \cup (IF v # 1 THEN {"lastonly"} ELSE {})
+                     \cup (IF v >= 2 /\ v <= L THEN {"broken"} ELSE {})
+CPad(fn, alg, kb, nl, tl, L, v, t) == C(fn, alg, "oct", kb, nl, tl, L, 0, "pad") @@ [padV |-> v, padTail |-> t]
+PadVsOf(alg, fn) == IF fn \in PadFns \/ (alg = "A128CBC" /\ fn = "DecryptSymmetric") THEN PadVsAll ELSE PadVs
+PadShape(alg, fn, L, v, t) ==       \* the case with this tail, all other fields fixed by (alg, fn)
+  LET kb == IF fn \in PadFns THEN 0 ELSE GoodBits(Row(alg))
+      nl == IF fn \in PadFns THEN 0 ELSE 16
+      tl == IF fn \in PadFns THEN 0 ELSE IF fn \in AeadFns THEN Row(alg).tag ELSE TagArg(fn, Row(alg))
+  IN CPad(fn, alg, kb, nl, tl, L, v, t)
+PadGroup(alg, fn) ==
+  {PadShape(alg, fn, x[1], x[2], x[3]) :
+     x \in {y \in PadLens \X PadVsOf(alg, fn) \X {"full", "lastonly", "broken"} : y[3] \in PadTailsFor(y[2], y[1])}}
+InPadGroup(cs) ==                   \* membership without building the group
+  /\ cs.inLen \in PadLens /\ cs.padV \in PadVsOf(cs.alg, cs.fn) /\ cs.padTail \in PadTailsFor(cs.padV, cs.inLen)
+  /\ cs = PadShape(cs.alg, cs.fn, cs.inLen, cs.padV, cs.padTail)
+
+(* History: signature and asymmetric-encryption calls with keys that carry a *)
+(* key id, after unrelated calls with another key under the same key id.     *)
+SeqKinds == {"rsa", "ec", "okp"}
+SeqKeysFor(r) ==
+  CASE r.keyKind = "rsa" -> {<<"rsa", 2048>>, <<"rsa-pub", 2048>>, <<"ec", 256>>, <<"okp", 255>>}
+    [] r.keyKind = "ec" -> {<<"ec", GoodBits(r)>>, <<"ec-pub", GoodBits(r)>>, <<"rsa", 2048>>}
+    [] r.keyKind = "okp" -> {<<"okp", 255>>, <<"okp-pub", 255>>, <<"rsa", 2048>>}
+SeqGroup(r, fn) ==
+  LET il == IF r.kind = "sig" THEN (IF r.fam = "eddsa" THEN 32 ELSE r.hash) ELSE 32
+      muts == IF fn = "VerifyPublicKey" THEN {"none", "otherkey"} ELSE {"none"}
+      base == {C(fn, r.alg, k[1], k[2], 0, 0, il, 0, m) : k \in SeqKeysFor(r), m \in muts}
+      ok == {x \in base : x.mut = "none" \/ ~KeyFault(x, r)}
+  IN {x @@ [seq |-> q] : x \in ok, q \in SeqKinds}
+
 (* The case space is the disjoint union of small groups, one per (part, algorithm, entry point). *)
 G(part, alg, fn) == [part |-> part, alg |-> alg, fn |-> fn]
 Groups ==
@@ -333,6 +387,11 @@ Groups ==
   \cup {G("name", "", fn) : fn \in NameFns}
   \cup {G("kw", r.alg, fn) : r \in KwRows, fn \in KwFns}
   \cup {G("aead", r.alg, fn) : r \in AeadRows, fn \in AeadFns}
+  \cup {G("pad", "", fn) : fn \in PadFns}
+  \cup {G("pad", r.alg, fn) : r \in PadRows, fn \in (IF Small THEN {"DecryptSymmetric"} ELSE {"DecryptSymmetric", "Decrypt"})}
+  \cup {G("pad", r.alg, "aescbcaead.Open") : r \in AeadRows}
+  \cup {G("seq", r.alg, fn) : r \in SigRows, fn \in SigFns}
+  \cup {G("seq", r.alg, fn) : r \in AsymRows, fn \in AsymCallFns}
 GroupCases(g) ==
   CASE g.part = "sym" -> SymGroup(Row(g.alg), g.fn)
     [] g.part = "asym" -> AsymGroup(Row(g.alg), g.fn)
@@ -340,19 +399,24 @@ GroupCases(g) ==
     [] g.part = "name" -> NameGroup(g.fn)
     [] g.part = "kw" -> KwGroup(Row(g.alg), g.fn)
     [] g.part = "aead" -> AeadGroup(Row(g.alg), g.fn)
+    [] g.part = "pad" -> PadGroup(g.alg, g.fn)
+    [] g.part = "seq" -> SeqGroup(Row(g.alg), g.fn)
 GroupOf(cs) ==
-  IF cs.alg \notin SupportedFor(cs.fn) THEN G("name", "", cs.fn)
+  IF cs.mut = "pad" THEN G("pad", cs.alg, cs.fn)
+  ELSE IF IsSeq(cs) THEN G("seq", cs.alg, cs.fn)
+  ELSE IF cs.alg \notin SupportedFor(cs.fn) THEN G("name", "", cs.fn)
   ELSE IF cs.fn \in KwFns THEN G("kw", cs.alg, cs.fn)
   ELSE IF cs.fn \in AeadFns THEN G("aead", cs.alg, cs.fn)
   ELSE G(Row(cs.alg).kind, cs.alg, cs.fn)
-InCases(cs) == cs.fn \in Fns /\ GroupOf(cs) \in Groups /\ cs \in GroupCases(GroupOf(cs))
+InCases(cs) == /\ cs.fn \in Fns /\ GroupOf(cs) \in Groups
+               /\ IF cs.mut = "pad" THEN InPadGroup(cs) ELSE cs \in GroupCases(GroupOf(cs))
 RECURSIVE SumCard(_)
 SumCard(S) == IF S = {} THEN 0 ELSE LET g == CHOOSE x \in S : TRUE IN Cardinality(GroupCases(g)) + SumCard(S \ {g})
 NumCasesOf(GS) == SumCard(GS)      \* NumCasesOf(Groups): parametrised so that TLC does not evaluate it eagerly
 
 (* what the replay needs to know about a case, all of it derived from the table *)
 Describe(cs) ==
-  IF cs.alg \in SupportedFor(cs.fn)
+  IF cs.fn \notin PadFns /\ cs.alg \in SupportedFor(cs.fn)
   THEN LET r == Row(cs.alg) IN
        cs @@ [fam |-> r.fam, dir |-> Dir(cs.fn), gKeyKind |-> r.keyKind,
               gKeyBits |-> (IF r.keyBits = {} THEN (IF Base(cs.keyKind) = "rsa" THEN cs.keyBits ELSE 2048) ELSE GoodBits(r)),
@@ -375,6 +439,10 @@ CasesSane ==
   \* every supported name is exercised through every entry point that documents it, at a valid point
   /\ \A g \in Groups : g.part # "name" => \E x \in GroupCases(g) : Allowed(x) = {"ok"}
   /\ \A fn \in Fns : \A a \in SupportedFor(fn) : \E g \in Groups : g.fn = fn /\ g.alg = a
+  \* padding: every tail kind, valid and invalid, on every length; the seeded class "17 <= v <= len, full tail" is present
+  /\ \A g \in Groups : g.part = "pad" =>
+        /\ \E x \in GroupCases(g) : ~PadValid(x) /\ x.padTail = "full" /\ x.padV > 16
+        /\ \A L \in PadLens : \E x \in GroupCases(g) : x.inLen = L /\ PadValid(x) /\ x.padV = 16
   \* and every sentinel is demanded somewhere
   /\ \A s \in {"keytype", "nonce", "tag", "ptlen", "ctlen", "unsupported"} :
         \E g \in Groups : \E x \in GroupCases(g) : Allowed(x) = {s}
